@@ -1,6 +1,6 @@
 """Generated layer for C15: the ring buffer's validity predicate, re-derived from /repo on every run.
 
-  aws_ring_buffer_check_atomic_ptr, aws_ring_buffer_is_valid   (include/aws/common/ring_buffer.inl)
+  aws_ring_buffer_check_atomic_ptr, aws_ring_buffer_is_valid, aws_ring_buffer_is_empty   (include/aws/common/ring_buffer.inl)
 
 Pointers are translated to `Nat` addresses (NULL = 0); `struct aws_ring_buffer *ring_buf` becomes a record `RB` of the
 addresses it holds (`self` = the pointer itself).  Supported subset: `bool`/pointer locals initialised once, `return`,
@@ -131,7 +131,7 @@ class Tr:
 def generate(repo, cfg_inc):
     inc = ["-I" + os.path.join(repo, "include"), "-I" + cfg_inc]
     fns = cfun.dump_functions('#include <aws/common/ring_buffer.h>\n', "aws_ring_buffer_", inc)
-    for need in ("aws_ring_buffer_check_atomic_ptr", "aws_ring_buffer_is_valid"):
+    for need in ("aws_ring_buffer_check_atomic_ptr", "aws_ring_buffer_is_valid", "aws_ring_buffer_is_empty"):
         if need not in fns:
             raise GenError(f"{need} not found in ring_buffer.inl")
     chk, val = fns["aws_ring_buffer_check_atomic_ptr"], fns["aws_ring_buffer_is_valid"]
@@ -142,6 +142,11 @@ def generate(repo, cfg_inc):
     t1 = Tr(cp[0]); t1.locals[cp[1]] = (camel(cp[1]), "ptr")
     b1 = t1.body(chk)
     b2 = Tr(vp[0]).body(val)
+    emp = fns["aws_ring_buffer_is_empty"]
+    ep = [p["name"] for p in emp["inner"] if p.get("kind") == "ParmVarDecl"]
+    if len(ep) != 1:
+        raise GenError("unexpected parameter list of aws_ring_buffer_is_empty")
+    b3 = Tr(ep[0]).body(emp)
     text = f"""/-! GENERATED by gen/ring_gen.py from include/aws/common/ring_buffer.inl — do not edit.
 Pointers are `Nat` addresses, NULL = 0. -/
 namespace AwsVerif.Gen.Ring
@@ -162,6 +167,10 @@ def checkAtomicPtr (rb : RB) ({camel(cp[1])} : Nat) : Bool :=
 /-- `aws_ring_buffer_is_valid` -/
 def isValid (rb : RB) : Bool :=
 {b2}
+
+/-- `aws_ring_buffer_is_empty` -/
+def isEmpty (rb : RB) : Bool :=
+{b3}
 
 end AwsVerif.Gen.Ring
 """
